@@ -194,3 +194,10 @@ def check(ctx):
     ok = len(sets) == 1 and sets[0][0] is not None and sets[0][0].qual == "TaskHandle._run_coro"
     ctx.ob("R07-g", rc, "the finished event is set only when the task's coroutine has ended", ok,
            detail="" if ok else f"_finished_event.set() occurs in {[w[0].qual if w[0] else '?' for w in sets]}", by=("single setter in _run_coro",))
+
+    # ---- R07-h a child started into a group whose scope is already cancelled is reached by that cancellation ------------------------------
+    # (the starter may be parked in a shielded inner scope, so the group's delivery callback has died down: the join must restart it,
+    # and the restart must find the group's own scope even when that scope is itself shielded)
+    from .walkers import restart_walker, join_restarts
+    join_restarts(ctx, "R07-h", ("TaskGroup._spawn",), 1)
+    restart_walker(ctx, "R07-h")
